@@ -57,6 +57,9 @@ def main(argv=None):
     prop = argv[0]
     tier = argv[1] if len(argv) > 1 else os.environ.get("VERIF_TIER", "quick")
     seed = int(os.environ.get("VERIF_SEED", "0") or 0)
+    if tier == "thorough":
+        os.environ["PVC_CROSSCHECK"] = "1"  # before the engine modules are imported by the workers
+        os.environ.setdefault("PVC_UNIT_TIMEOUT", "5400")
     t0 = time.time()
     from pvc import props
     try:
@@ -79,7 +82,11 @@ def finish(prop, tier, seed, plan, units, results, t0):
     solver_s = 0.0
     by_backend = {"z3": 0, "cvc5": 0, "eval": 0}
     unit_summ = []
+    crosscheck = {}
     for u, r in zip(units, results):
+        for k_, v_ in (r.by_backend or {}).items():
+            if k_.startswith("cvc5_"):
+                crosscheck[k_] = crosscheck.get(k_, 0) + v_
         if r.error:
             errors.append((u.name, r.error))
         is_canary = getattr(u, "canary", None)
@@ -117,6 +124,10 @@ def finish(prop, tier, seed, plan, units, results, t0):
         else:
             violations.append(o)
     for name, b in bounded:
+        if b.get("engine_guard") and b.get("failures"):
+            # a mismatch between the engine's model of Python and CPython is an engine problem, never a verdict
+            errors.append((name, "engine difftest mismatch: " + "; ".join(f.get("detail", "") for f in b["failures"][:3])))
+            continue
         for f in b.get("failures", []):
             o = ObRec(f"{name}:{f.get('case', '?')}", "bounded", "sat", 0.0, f.get("detail", ""), f.get("inputs"), "native", name)
             k = match_known(known, o)
@@ -249,6 +260,7 @@ def finish(prop, tier, seed, plan, units, results, t0):
             "checker_cmd": f"./vcheck {prop} {tier}",
             "trusted_base": trusted,
             "by_backend": by_backend,
+            "cvc5_crosscheck": crosscheck,
             "solver_s": round(solver_s, 2),
             "functions_under_contract": sorted(functions),
             "callees": sorted({f"{a} -> {b} ({c})" for a, b, c in callees})[:400],
